@@ -205,12 +205,20 @@ Qed.
 Lemma undo1_seq : forall e s1 s2, seq s1 s2 -> seq (undo1 e s1) (undo1 e s2).
 Proof.
   intros e s1 s2 H. pose proof H as (H1 & H2 & H3).
-  destruct e; cbn [undo1]; try rewrite (get_obj_jeq s1 s2 a H);
-    try (destruct (get_obj a s2); [apply seq_set_obj; assumption | assumption]);
-    try (apply seq_set_obj; assumption); try assumption.
+  assert (forall a f, seq (match get_obj a s1 with Some x => set_obj a (f x) s1 | None => s1 end)
+                          (match get_obj a s2 with Some x => set_obj a (f x) s2 | None => s2 end)) as F.
+  { intros a f. rewrite (get_obj_jeq s1 s2 a H). destruct (get_obj a s2); [apply seq_set_obj; assumption | assumption]. }
+  destruct e; cbn [undo1].
   - seq3; cbn; try assumption. intro b. rewrite !alookup_adel. destruct (addr_eqb b a); [reflexivity | apply H1].
-  - seq3; cbn; assumption.
+  - apply seq_set_obj; assumption.
+  - apply (F a (fun x => set_dead_f x prev prevbal)).
+  - apply (F a (fun x => set_bal x prev)).
+  - apply (F a (fun x => set_nonce_f x prev)).
+  - apply (F a (fun x => set_stor_f x prev)).
+  - apply (F a (fun x => set_code_f x prev)).
+  - seq3; cbn; try assumption. reflexivity.
   - seq3; cbn; try assumption. congruence.
+  - assumption.
 Qed.
 
 Lemma undo1_jrnl : forall e s, jrnl (undo1 e s) = jrnl s.
@@ -222,7 +230,7 @@ Lemma undo_n_jeq : forall k s1 s2, jeq s1 s2 -> jeq (undo_n k s1) (undo_n k s2).
 Proof.
   induction k as [|k IH]; intros s1 s2 H; cbn [undo_n]; [assumption|].
   destruct H as [Hs Hj]. rewrite Hj. destruct (jrnl s2) as [|e j] eqn:E.
-  - split; assumption.
+  - split; [assumption | congruence].
   - apply IH. split.
     + apply undo1_seq. destruct Hs as (A & B & C). seq3; cbn; assumption.
     + rewrite !undo1_jrnl. reflexivity.
@@ -281,12 +289,13 @@ Proof. intros s s' Hj Hs. exists O. split; [rewrite Hj; reflexivity | split; ass
 (* ---- wf is preserved by undo ----------------------------------------------- *)
 
 Lemma wf_set_obj : forall a x s, wf s -> wf (set_obj a x s).
-Proof. intros. unfold wf, set_obj. cbn. apply nodup_aset. assumption. Qed.
+Proof. intros. unfold wf. change (accts (set_obj a x s)) with (aset a x (accts s)). apply nodup_aset. assumption. Qed.
 
 Lemma wf_undo1 : forall e s, wf s -> wf (undo1 e s).
 Proof.
-  intros e s H. destruct e; cbn [undo1]; try (destruct (get_obj a s)); try (apply wf_set_obj); try assumption.
-  unfold wf. cbn. apply nodup_adel. assumption.
+  intros e s H. destruct e; cbn [undo1];
+    try (match goal with |- context [get_obj ?a s] => destruct (get_obj a s) end); try (apply wf_set_obj); try assumption.
+  unfold wf, with_accts. cbn [accts]. apply nodup_adel. assumption.
 Qed.
 
 Lemma wf_undo_n : forall k s, wf s -> wf (undo_n k s).
@@ -300,7 +309,8 @@ Proof. intros. apply wf_undo_n. assumption. Qed.
 
 (* ---- the primitives: each extends the state, keeps wf, and moves the total as stated ---- *)
 
-Ltac seq_tac := seq3; cbn; try reflexivity.
+Ltac st := unfold set_obj, with_accts, push_j, add_log, add_refund, sub_refund, get_obj; cbn [accts logs refund jrnl tl].
+Ltac seq_tac := seq3; st; try reflexivity.
 
 Lemma get_obj_set_obj : forall a x s b, get_obj b (set_obj a x s) = if addr_eqb b a then Some x else get_obj b s.
 Proof. intros. unfold get_obj, set_obj. cbn. apply alookup_aset. Qed.
@@ -314,10 +324,10 @@ Proof. intros. eapply ext_one; [reflexivity|]. cbn [undo1]. seq_tac. intro b. re
 Lemma ext_create_object : forall a s, ext s (create_object a s).
 Proof.
   intros a s. unfold create_object. destruct (get_obj a s) as [prev|] eqn:E.
-  - eapply ext_one; [reflexivity|]. cbn [undo1]. seq_tac. intro b. cbn.
-    rewrite !alookup_aset. destruct (addr_eqb b a) eqn:Eb; [|rewrite alookup_aset, Eb; reflexivity].
+  - eapply ext_one; [reflexivity|]. cbn [undo1]. seq_tac. intro b.
+    rewrite !alookup_aset. destruct (addr_eqb b a) eqn:Eb; [|reflexivity].
     apply addr_eqb_eq in Eb. subst. symmetry. exact E.
-  - eapply ext_one; [reflexivity|]. cbn [undo1]. seq_tac. intro b. cbn.
+  - eapply ext_one; [reflexivity|]. cbn [undo1]. seq_tac. intro b.
     rewrite alookup_adel. destruct (addr_eqb b a) eqn:Eb.
     + apply addr_eqb_eq in Eb. subst. symmetry. exact E.
     + rewrite alookup_aset, Eb. reflexivity.
@@ -326,8 +336,8 @@ Qed.
 Lemma ext_create_account : forall a s, ext s (create_account a s).
 Proof.
   intros a s. unfold create_account. destruct (get_obj a s) as [prev|] eqn:E.
-  - eapply ext_one; [reflexivity|]. cbn [undo1]. seq_tac. intro b. cbn.
-    rewrite !alookup_aset. destruct (addr_eqb b a) eqn:Eb; [|rewrite alookup_aset, Eb; reflexivity].
+  - eapply ext_one; [reflexivity|]. cbn [undo1]. seq_tac. intro b.
+    rewrite !alookup_aset. destruct (addr_eqb b a) eqn:Eb; [|reflexivity].
     apply addr_eqb_eq in Eb. subst. symmetry. exact E.
   - apply ext_create_object.
 Qed.
@@ -351,7 +361,7 @@ Proof.
   change (mkSt (accts (set_obj a (f x) (push_j e s))) (logs (set_obj a (f x) (push_j e s)))
                (refund (set_obj a (f x) (push_j e s))) (jrnl s)) with (set_obj a (f x) s).
   rewrite (H (f x)) by (rewrite get_obj_set_obj, addr_eqb_refl; reflexivity).
-  seq_tac. intro b. cbn. rewrite !alookup_aset. destruct (addr_eqb b a) eqn:Eb; [|reflexivity].
+  seq_tac. intro b. rewrite !alookup_aset. destruct (addr_eqb b a) eqn:Eb; [|reflexivity].
   apply addr_eqb_eq in Eb. subst. symmetry. exact E.
 Qed.
 
@@ -561,7 +571,7 @@ Qed.
 
 Lemma veq_set_obj_fresh : forall a s, get_obj a s = None -> veq s (set_obj a fresh s).
 Proof.
-  intros a s E. seq3; try reflexivity. intro b. cbn. rewrite alookup_aset. destruct (addr_eqb b a) eqn:Eb; [|reflexivity].
+  intros a s E. seq3; try reflexivity. intro b. st. rewrite alookup_aset. destruct (addr_eqb b a) eqn:Eb; [|reflexivity].
   apply addr_eqb_eq in Eb. subst. unfold get_obj in E. rewrite E. reflexivity.
 Qed.
 
